@@ -51,6 +51,8 @@ class TapeRecorder(object):
         self._random = Random(random_seed)
         self._force_sample = False
         self._thread_locals = threading.local()
+        # Guards the hand-over of the active recording (to be saved or aborted) against a discard racing from another thread
+        self._finalization_lock = threading.Lock()
 
     @contextmanager
     def start_recording(self, category, metadata, post_operation_metadata_extractor=None):
@@ -78,15 +80,13 @@ class TapeRecorder(object):
             metadata[TapeRecorder.EXCEPTION_IN_OPERATION] = True
             raise
         finally:
-            # Recording was discarded
-            if self._active_recording is not None:
-                recording = self._active_recording
-                force_sample = self.is_recording_sample_forced
-                recording_parameters = self._active_recording_parameters
+            # Clear recording not to leave recording in active state if we have
+            # some exception raised in following code
+            detached = self._detach_active_recording()
 
-                # Clear recording not to leave recording in active state if we have
-                # some exception raised in following code
-                self._reset_active_recording()
+            # Recording was discarded
+            if detached is not None:
+                recording, recording_parameters, force_sample = detached
 
                 if not self._should_sample_active_recording(recording, recording_parameters, force_sample):
                     self.tape_cassette.abort_recording(recording)
@@ -107,22 +107,41 @@ class TapeRecorder(object):
         """
         Discards currently active recording process
         """
-        if self._active_recording is not None:
+        detached = self._detach_active_recording()
+        if detached is not None:
+            recording = detached[0]
             _logger.info(
-                u'Recording with id {} was discarded'.format(self._active_recording.id))
-            self.tape_cassette.abort_recording(self._active_recording)
+                u'Recording with id {} was discarded'.format(recording.id))
+            self.tape_cassette.abort_recording(recording)
+
+    def _detach_active_recording(self):
+        """
+        Takes the active recording away from the tape recorder, leaving it ready for the next recording. Only one
+        caller gets it, also when a discard (possibly from another thread) races with the end of the recording scope
+        or with another discard, so every recording is saved or aborted exactly once.
+        :return: Active recording, its parameters and whether its sampling was forced, or None if there is none
+        :rtype: tuple or None
+        """
+        with self._finalization_lock:
+            recording = self._active_recording
+            if recording is None:
+                return None
+            detached = (recording, self._active_recording_parameters, self._force_sample)
             self._reset_active_recording()
+        return detached
 
     def force_sample_recording(self):
         """
         Make sure currently active recording will be sampled (unless explicitly discarded or set to ignore enforcement)
         """
-        if self._active_recording is not None:
-            if self._active_recording_parameters.ignore_enforced_sampling:
-                return
-            _logger.info(
-                u'Recording with id {} sampling is enforced'.format(self._active_recording.id))
-            self._force_sample = True
+        with self._finalization_lock:
+            recording = self._active_recording
+            if recording is not None:
+                if self._active_recording_parameters.ignore_enforced_sampling:
+                    return
+                _logger.info(
+                    u'Recording with id {} sampling is enforced'.format(recording.id))
+                self._force_sample = True
 
     @property
     def is_recording_sample_forced(self):
@@ -180,9 +199,13 @@ class TapeRecorder(object):
         :param data: Data to record (it needs to be serializable)
         :type data: Any
         """
-        self._assert_recording()
-        _logger.debug(u'Recording data for recording id {} under key {}'.format(self._active_recording.id, key))
-        self._active_recording[key] = data
+        # The recording may be discarded by another thread at any moment: read it once, and if it is gone there is
+        # nothing left to record into
+        recording = self._active_recording
+        if recording is None:
+            return
+        _logger.debug(u'Recording data for recording id {} under key {}'.format(recording.id, key))
+        recording[key] = data
 
     def _assert_recording(self):
         """
@@ -267,10 +290,12 @@ class TapeRecorder(object):
         :return: Returns the id of recording in the current context or None if there is no such recording
         :rtype: basestring or None
         """
-        if self.in_recording_mode:
-            return self._active_recording.id
-        if self.in_playback_mode:
-            return self._playback_recording.id
+        recording = self._active_recording
+        if self.recording_enabled and recording is not None:
+            return recording.id
+        recording = self._playback_recording
+        if recording is not None:
+            return recording.id
         return None
 
     @property
